@@ -438,6 +438,11 @@ func checkCompoundLHS(
 	expr ast.Expr,
 	tok token.Token,
 ) *ImmutableViolation {
+	// Check for compound assignment through the receiver: *receiver += value
+	if star, ok := ast.Unparen(expr).(*ast.StarExpr); ok {
+		return checkReceiverCompound(ctx, stmt, star, tok)
+	}
+
 	selector, ok := ast.Unparen(expr).(*ast.SelectorExpr)
 	if !ok {
 		return nil
@@ -484,6 +489,50 @@ func checkCompoundLHS(
 		Code:     codes.ImmutableFieldCompoundAssign,
 		Pos:      selector.Pos(),
 		Reason:   fmt.Sprintf("cannot use %s on field %q of immutable type (outside constructor)", op, selector.Sel.Name),
+		Node:     stmt,
+	}
+}
+
+// checkReceiverCompound checks if a method updates its receiver in place (*receiver += value)
+func checkReceiverCompound(
+	ctx *checkerContext,
+	stmt *ast.AssignStmt,
+	star *ast.StarExpr,
+	tok token.Token,
+) *ImmutableViolation {
+	// Check if we're in a method with a receiver
+	if ctx.currentReceiver == nil {
+		return nil
+	}
+
+	ident, ok := ast.Unparen(star.X).(*ast.Ident)
+	if !ok {
+		return nil
+	}
+
+	// Check if the identifier is the receiver (and not a variable shadowing its name)
+	if ident.Name != ctx.currentReceiver.name {
+		return nil
+	}
+	if obj := ctx.pass.TypesInfo.Uses[ident]; obj != nil && ctx.currentReceiver.obj != nil && obj != ctx.currentReceiver.obj {
+		return nil
+	}
+
+	// Check if the receiver type is immutable
+	if !ctx.immutableTypes.Contains(ctx.currentReceiver.pkgPath, ctx.currentReceiver.typeName) {
+		return nil
+	}
+
+	// Allow in constructors
+	if ctx.inConstructor(ctx.currentReceiver.pkgPath, ctx.currentReceiver.typeName) {
+		return nil
+	}
+
+	return &ImmutableViolation{
+		TypeName: ctx.currentReceiver.typeName,
+		Code:     codes.ImmutableFieldCompoundAssign,
+		Pos:      star.Pos(),
+		Reason:   fmt.Sprintf("cannot use %s on immutable receiver (outside constructor)", tok.String()),
 		Node:     stmt,
 	}
 }
